@@ -1124,4 +1124,279 @@ theorem Src_sections (m : List (Y × Y)) :
     cases hall : m.all _ <;> simp_all
   · have : decide (m.length ≥ requiredKeys.length) = false := by simpa using hl
     simp [hl]
+
+/-! ### host configurations -/
+
+theorem forEach_all_k {α : Type} (l : List α) (p : α → Bool) (body : α → Unit → PyRt.Ctl Bool Unit) (K : Bool)
+    (h : ∀ x ∈ l, body x () = if !p x then .ret false else .next ()) :
+    (match PyRt.forEach l () body with | .ret v => v | .next _ => K) = (l.all p && K) := by
+  rw [forEach_all' l body p h]
+  cases l.all p <;> rfl
+
+theorem ymapHas_set_other (m : List (Y × Y)) (k k' : String) (v : Y) (h : k ≠ k') :
+    PyRt.ymapHas (PyRt.ymapSet (.map m) k v) k' = PyRt.ymapHas (.map m) k' := by
+  unfold PyRt.ymapHas; rw [getKey_set_other m k k' v h]; rfl
+
+/-- the names part of a host configuration: every listed name known, none twice -/
+def namesPartSrc (x : Y) (names : List Y) (K : Bool) : Bool :=
+  match PyRt.iterY x with
+  | none => false
+  | some it => it.all (fun s => pyIn s names) && (PyRt.optEq (PyRt.ylen x) (PyRt.ysetLen x) && K)
+
+theorem namesPart_list (l names : List Y) (K : Bool) :
+    namesPartSrc (.list l) names K = (l.all (fun s => s.isScalar && pyIn s names) && noDupY l && K) := by
+  unfold namesPartSrc
+  simp only [PyRt.iterY, PyRt.ylen, PyRt.ysetLen, Option.map_some, Option.bind_some, PyRt.setLen]
+  have hsc : l.all (fun s => s.isScalar && pyIn s names) = l.all (fun s => pyIn s names) := by
+    apply all_congr_mem
+    intro s _
+    cases h : pyIn s names
+    · simp
+    · simp [pyIn_scalar s names h]
+  rw [hsc]
+  cases hall : l.all (fun s => pyIn s names)
+  · simp
+  · have : l.all Y.isScalar = true := by
+      rw [List.all_eq_true] at hall ⊢
+      intro s hs; exact pyIn_scalar s names (hall s hs)
+    simp only [this, if_true, PyRt.optEq, Bool.true_and]
+    rw [← dedup_length_eq l]
+    rw [show (l.length == (PyRt.dedupY l).length) = ((PyRt.dedupY l).length == l.length) from BEq.comm]
+
+/-- the value of a `services` / `processes` entry is a list or not iterable at all (the documented format says list;
+a string or a dictionary would be iterated by the implementation, character by character resp. key by key) -/
+def NotStrMap (x : Y) : Prop := x.isStr = false ∧ x.isMap = false
+
+theorem namesPart_other (x : Y) (names : List Y) (K : Bool) (h : NotStrMap x) (hl : x.isList = false) :
+    namesPartSrc x names K = false := by
+  cases x <;> simp_all [namesPartSrc, PyRt.iterY, NotStrMap, Y.isStr, Y.isMap, Y.isList]
+
+
+/-- hypothesis of the host-configuration tie: the configuration's `services` / `processes` values are lists or not
+iterable at all -/
+def IterListCfg (cfg : Y) : Prop :=
+  ∀ m, cfg = .map m → (∀ x, getKey m "services" = some x → NotStrMap x) ∧ (∀ x, getKey m "processes" = some x → NotStrMap x)
+
+def namesM (osl svl prl : List Y) : Option Y → Option Y → Option Y → Bool
+  | some os, some (.list svcs), some (.list procs) =>
+    svcs.all (fun s => s.isScalar && pyIn s svl) && noDupY svcs
+      && procs.all (fun p => p.isScalar && pyIn p prl) && noDupY procs && os.isScalar && pyIn os osl
+  | _, _, _ => false
+def fwM (subnets : List Nat) (svl : List Y) : Option Y → Bool
+  | none => true
+  | some (.map fw) => fw.all fun kv => hostFwKeyOk subnets kv.1 && fwSettingOk svl kv.2
+  | some _ => false
+def valMk (sens : List ((Nat × Nat) × Rat)) (e : Option (Int × Int)) : Option Y → Bool
+  | none => true
+  | some v => match v.toRat? with
+    | none => false
+    | some q => match e with
+      | none => false
+      | some (x, y) =>
+        if x < 0 ∨ y < 0 then true
+        else match sens.lookup (x.toNat, y.toNat) with
+          | some sv => isclose q sv
+          | none => true
+
+theorem evalAddr_keyPair (k : Y) : PyRt.evalAddr k = keyPair k := by cases k <;> rfl
+
+theorem hostConfigOk_parts (subnets : List Nat) (osl svl prl : List Y) (sens : List ((Nat × Nat) × Rat)) (key : Y)
+    (m : List (Y × Y)) :
+    hostConfigOk subnets osl svl prl sens key (.map m) =
+      (decide (3 ≤ m.length) && namesM osl svl prl (getKey m "os") (getKey m "services") (getKey m "processes")
+        && fwM subnets svl (getKey m "firewall") && valMk sens (PyRt.evalAddr key) (getKey m "value")) := by
+  rw [evalAddr_keyPair]
+  unfold hostConfigOk namesM fwM valMk
+  rfl
+
+theorem iscloseY_some (v : Y) (q sv : Rat) (h : v.toRat? = some q) : PyRt.iscloseY v sv = isclose q sv := by
+  unfold PyRt.iscloseY; rw [h]
+
+theorem valMk_some (sens : List ((Nat × Nat) × Rat)) (e : Option (Int × Int)) (v : Y) :
+    valMk sens e (some v) = (match v.toRat? with
+    | none => false
+    | some q => match e with
+      | none => false
+      | some (x, y) =>
+        if x < 0 ∨ y < 0 then true
+        else match sens.lookup (x.toNat, y.toNat) with
+          | some sv => isclose q sv
+          | none => true) := rfl
+
+theorem valPart_some (sens : List ((Nat × Nat) × Rat)) (x y : Int) (ov : Option Y) :
+    (if ov.isSome = true then
+      if (!(ov.getD Y.null).toRat?.isSome) = true then false
+      else if PyRt.sensHas sens (x, y) = true then
+        if (!PyRt.iscloseY (ov.getD Y.null) (PyRt.sensGet sens (x, y))) = true then false else true
+      else true
+    else true) = valMk sens (some (x, y)) ov := by
+  cases ov with
+  | none => rfl
+  | some v =>
+    rw [valMk_some]
+    simp only [Option.isSome_some, if_true, Option.getD_some, PyRt.sensHas, PyRt.sensGet]
+    rcases (by cases hh : v.toRat? <;> simp : v.toRat? = none ∨ ∃ q, v.toRat? = some q) with h | ⟨q, h⟩
+    · simp only [h]; rfl
+    · simp only [iscloseY_some v q _ h, h]
+      by_cases hneg : x < 0 ∨ y < 0
+      · have : (decide (0 ≤ x) && decide (0 ≤ y)) = false := by
+          rcases hneg with h1 | h1
+          · have : ¬ 0 ≤ x := by omega
+            simp [this]
+          · have : ¬ 0 ≤ y := by omega
+            simp [this]
+        simp [hneg, this]
+      · have hx : 0 ≤ x := by omega
+        have hy : 0 ≤ y := by omega
+        simp only [hneg, if_false, hx, hy, decide_true, Bool.true_and]
+        rcases (by cases hh : sens.lookup (x.toNat, y.toNat) <;> simp :
+            sens.lookup (x.toNat, y.toNat) = none ∨ ∃ sv, sens.lookup (x.toNat, y.toNat) = some sv) with h2 | ⟨sv, h2⟩
+        · simp [h2]
+        · simp only [h2]
+          cases h3 : isclose q sv <;> simp [h3]
+
+theorem valPart_none (sens : List ((Nat × Nat) × Rat)) (ov : Option Y) :
+    (if ov.isSome = true then
+      if (!(ov.getD Y.null).toRat?.isSome) = true then false else false
+    else true) = valMk sens none ov := by
+  cases ov with
+  | none => rfl
+  | some v =>
+    rw [valMk_some]
+    cases v.toRat? <;> simp
+
+def prPart (prl : List Y) : Y → Bool
+  | .list l2 => l2.all (fun p => p.isScalar && pyIn p prl) && noDupY l2
+  | _ => false
+
+theorem namesM_list (osl svl prl : List Y) (os pr : Y) (l : List Y) :
+    namesM osl svl prl (some os) (some (.list l)) (some pr) =
+      (l.all (fun s => s.isScalar && pyIn s svl) && noDupY l && (prPart prl pr && (os.isScalar && pyIn os osl))) := by
+  cases pr <;> simp [namesM, prPart, Bool.and_assoc]
+
+/-- the names loop followed by the duplicate test, on a list -/
+theorem namesLoop_list (l names : List Y) :
+    (PyRt.forEach l () (fun s _ => if (!pyIn s names) = true then PyRt.Ctl.ret false else PyRt.Ctl.next ()) =
+        if (l.all (fun s => pyIn s names)) = true then PyRt.Ctl.next () else PyRt.Ctl.ret false) ∧
+    ((l.all (fun s => pyIn s names) && PyRt.optEq (PyRt.ylen (Y.list l)) (PyRt.ysetLen (Y.list l))) =
+      (l.all (fun s => s.isScalar && pyIn s names) && noDupY l)) := by
+  refine ⟨forEach_all' l _ (fun s => pyIn s names) (fun _ _ => rfl), ?_⟩
+  have := namesPart_list l names true
+  unfold namesPartSrc at this
+  rw [show PyRt.iterY (Y.list l) = some l from rfl] at this
+  simpa using this
+
+theorem Src_validate_host_config (subnets : List Nat) (osl svl prl : List Y) (sens : List ((Nat × Nat) × Rat))
+    (key cfg : Y) (hit : IterListCfg cfg) :
+    SrcLoad.ScenarioLoader._validate_host_config subnets osl svl prl sens key cfg =
+      hostConfigOk subnets osl svl prl sens key cfg := by
+  cases cfg with
+  | map m =>
+    obtain ⟨hsv, hpr⟩ := hit m rfl
+    rw [hostConfigOk_parts]
+    unfold SrcLoad.ScenarioLoader._validate_host_config
+    have hne : ("firewall" : String) ≠ "value" := by decide
+    rcases (by cases hh : PyRt.evalAddr key <;> simp <;> exact ⟨_, _, rfl⟩ : PyRt.evalAddr key = none ∨ ∃ x y, PyRt.evalAddr key = some (x, y))
+      with hE | ⟨x, y, hE⟩ <;>
+    simp only [hE] <;>
+    simp only [ymapHas_set_other _ _ _ _ hne, ymapGet_set_other _ _ _ _ hne, ymapHas_map, ymapGet_map, valPart_some,
+      valPart_none sens] <;>
+    (
+    have hlen : SrcLoad.HOST_CONFIG_KEYS.length = 3 := rfl
+    have hm1 : (Y.map m).isMap = true := rfl
+    have hm2 : mapOf (Y.map m) = m := rfl
+    simp only [hlen, hm1, hm2, Bool.true_and, ge_iff_le]
+    cases decide (3 ≤ m.length) with
+    | false => rfl
+    | true =>
+    simp only [Bool.not_true, Bool.false_eq_true, if_false, Bool.true_and]
+    cases hos : getKey m "os" with
+    | none => simp [namesM]
+    | some os =>
+    cases hsv' : getKey m "services" with
+    | none => simp [namesM]
+    | some sv =>
+    cases hpr' : getKey m "processes" with
+    | none => simp [namesM]
+    | some pr =>
+    simp only [Option.isSome_some, Option.getD_some, Bool.not_true, Bool.false_eq_true, if_false]
+    have hsv := hsv sv hsv'
+    have hpr := hpr pr hpr'
+    cases sv with
+    | list l =>
+      rw [show PyRt.iterY (Y.list l) = some l from rfl, namesM_list]
+      simp only
+      obtain ⟨hL, hN⟩ := namesLoop_list l svl
+      rw [hL, ← hN]
+      cases hA : l.all (fun s => pyIn s svl) with
+      | false => simp
+      | true =>
+      simp only [if_true, Bool.true_and]
+      cases hB : PyRt.optEq (PyRt.ylen (Y.list l)) (PyRt.ysetLen (Y.list l)) with
+      | false => simp
+      | true =>
+      simp only [Bool.not_true, Bool.false_eq_true, if_false, Bool.true_and]
+      cases pr with
+      | list l2 =>
+        rw [show PyRt.iterY (Y.list l2) = some l2 from rfl]
+        simp only [prPart]
+        obtain ⟨hL2, hN2⟩ := namesLoop_list l2 prl
+        rw [hL2, ← hN2]
+        cases hA2 : l2.all (fun s => pyIn s prl) with
+        | false => simp
+        | true =>
+        simp only [if_true, Bool.true_and]
+        cases hB2 : PyRt.optEq (PyRt.ylen (Y.list l2)) (PyRt.ysetLen (Y.list l2)) with
+        | false => simp
+        | true =>
+        simp only [Bool.not_true, Bool.false_eq_true, if_false, Bool.true_and]
+        rcases (by cases pyIn os osl <;> simp : pyIn os osl = false ∨ pyIn os osl = true) with hO | hO
+        · simp [hO]
+        simp only [hO, Bool.not_true, Bool.false_eq_true, if_false, Bool.true_and, pyIn_scalar os osl hO, Bool.and_true]
+        rcases (by cases hh : getKey m "firewall" <;> simp : getKey m "firewall" = none ∨ ∃ v, getKey m "firewall" = some v)
+          with hfw | ⟨fwv, hfw⟩
+        · simp [hfw, fwM]
+        · simp only [hfw]
+          cases fwv with
+          | map fw =>
+            simp only [Option.isSome_some, Option.getD_some, if_true, Y.isMap, mapOf, fwM, Bool.not_true, Bool.false_eq_true, if_false]
+            rw [forEach_all' fw _ (fun kv => hostFwKeyOk subnets kv.1 && fwSettingOk svl kv.2) (by
+              intro kv _
+              rw [Src_validate_host_address, Src_fw_setting]
+              cases hostFwKeyOk subnets kv.1 <;> cases fwSettingOk svl kv.2 <;> rfl)]
+            cases hW : fw.all (fun kv => hostFwKeyOk subnets kv.1 && fwSettingOk svl kv.2) with
+            | false => simp
+            | true =>
+              simp only [if_true]
+              first | exact valPart_some sens x y (getKey m "value") | exact valPart_none sens (getKey m "value")
+          | _ => simp [fwM, Y.isMap]
+      | _ => first | (exfalso; simp [NotStrMap, Y.isStr, Y.isMap] at hpr; done) | (simp [PyRt.iterY, prPart])
+    | _ => first | (exfalso; simp [NotStrMap, Y.isStr, Y.isMap] at hsv; done) | (simp [PyRt.iterY, namesM])
+    )
+  | _ => rfl
+
+/-- `_validate_host_configs`: as many configurations as hosts, a key for every address, every configuration valid -/
+theorem Src_validate_host_configs (subnets : List Nat) (osl svl prl : List Y) (sens : List ((Nat × Nat) × Rat))
+    (m : List (Y × Y)) (hit : ∀ kv ∈ m, IterListCfg kv.2) :
+    SrcLoad.ScenarioLoader._validate_host_configs subnets osl svl prl sens (subnets.foldl (· + ·) 0 - 1) m =
+      hostConfigsOk subnets osl svl prl sens m := by
+  unfold SrcLoad.ScenarioLoader._validate_host_configs hostConfigsOk
+  rw [Src_has_all_addrs]
+  cases m.length == subnets.foldl (· + ·) 0 - 1
+  · rfl
+  cases hasAllAddrs subnets m
+  · rfl
+  simp only [Bool.not_true, Bool.false_eq_true, if_false, Bool.true_and]
+  rw [forEach_all' m _ (fun kv => hostConfigOk subnets osl svl prl sens kv.1 kv.2) (fun kv hkv => by
+    obtain ⟨k, v⟩ := kv
+    simp only [Src_validate_host_config subnets osl svl prl sens k v (hit (k, v) hkv)])]
+  cases m.all (fun kv => hostConfigOk subnets osl svl prl sens kv.1 kv.2) <;> rfl
+
+/-- the hypothesis is satisfiable: a configuration in the documented format -/
+example : IterListCfg (.map [(.str "os", .str "linux"), (.str "services", .list [.str "ssh"]), (.str "processes", .list [])]) := by
+  intro m hm
+  injection hm with hm
+  subst hm
+  constructor <;> intro x hx <;> simp [getKey, Y.pyEq, Y.toRat?] at hx <;> subst hx <;> simp [NotStrMap, Y.isStr, Y.isMap]
+
 end NASim
